@@ -324,6 +324,20 @@ def build_trace(job):
     muls = []
     for n in specials:
         muls.append(B.prod("mul", lambda: m.multiply(B.R(g), n), a=g, n=n))
+    # a call that fails half way (malformed point, odd scalar) must leave nothing behind for the calls that follow
+    try:
+        bad = (B.R(g)[0], "not a field element") + tuple(B.R(g)[2:])
+        m.multiply(bad, 7)
+    except Exception:  # noqa: BLE001
+        pass
+    # an equality is what the abstract group can decide: every special multiple n G is produced a second time
+    # along an independent path, a G + (n - a) G with a random split, and must be the same point
+    for k_, n in enumerate(specials):
+        if n >= 4:
+            a_ = rng.randrange(1, n)
+            ma = B.prod("mul", lambda: m.multiply(B.R(g), a_), a=g, n=a_)
+            mb = B.prod("mul", lambda: m.multiply(B.R(g), n - a_), a=g, n=n - a_)
+            B.prod("add", lambda: m.add(B.R(ma), B.R(mb)), a=ma, b=mb)
     pool = [g, o] + muls[:]
     if t:
         s1 = B.prod("add", lambda: m.add(B.R(muls[4]), B.R(t)), a=muls[4], b=t)      # (r-1)G + T
@@ -515,6 +529,12 @@ def build_secp(job):
         pool = [g, o]
         for n in ns:
             pool.append(prod("mul", lambda: s.multiply(regs[g - 1], n), a=g, n=n))
+        for n in ns:            # the same multiple along an independent path: a G + (n - a) G
+            if abs(n) >= 4:
+                a_ = rng.randrange(1, abs(n))
+                ma = prod("mul", lambda: s.multiply(regs[g - 1], a_), a=g, n=a_)
+                mb = prod("mul", lambda: s.multiply(regs[g - 1], n - a_), a=g, n=n - a_)
+                prod("add", lambda: s.add(regs[ma - 1], regs[mb - 1]), a=ma, b=mb)
         for d in (1, 2, N - 1, rng.randrange(1, N), N, N + 1, P - 1, P, P + 3, 2 ** 256 - 1, 2 ** 255):
             pool.append(prod("mul", lambda: s.privtopub(d.to_bytes(32, "big")), a=g, n=d))      # privtopub(d) = d G
         for d in (2 ** 256 + 5, rng.getrandbits(300) | 1 << 299):                                 # longer key strings
